@@ -916,7 +916,7 @@ func RunC15(c *lib.Ctx) {
 		}
 		cases = append(cases, casePlan{ID: fmt.Sprintf("log/%d", i), Kind: kind, Seed: r.Uint64(), Ops: 80})
 	}
-	runCases(c, "stores-c15", cases, 12, time.Duration(c.Q(10, 40))*time.Minute)
+	runCases(c, "stores-c15", cases, 8, time.Duration(c.Q(10, 40))*time.Minute)
 	if c.Only == "" {
 		for _, k := range []string{"store1", "storeN", "get_hit", "get_miss", "delrange", "set", "setu64", "kv_get_missing", "reopen", "raft_append", "raft_truncate", "raft_compact"} {
 			if c.Counter("ops_checked:"+k) == 0 {
